@@ -150,6 +150,12 @@ def handle : List String → String
     match decList? m, code.toNat? with
     | some m, some c => encBool (isNoBody { method := m } { version := [], code := c, reason := [] })
     | _, _ => "bad-arg"
+  | ["file", d, pos, body] =>
+    match decList? d, pos.toNat?, decList? body with
+    | some d, some pos, some body =>
+      let f := downloadInto { data := d, pos := pos } body
+      encList f.data ++ " " ++ toString f.pos ++ " " ++ encList f.content
+    | _, _, _ => "bad-arg"
   | ["dedup", o, n] =>
     let d (t : String) : Option (Option Str) := if t == "N" then some none else (decList? t).map some
     match d o, d n with
